@@ -11,8 +11,8 @@
 (*   last  the pronoun referent: <<>> or <<name>>                          *)
 (*   act   activation stack (last = current): [cf, ret]; cf is the         *)
 (*         control-flow state normal | breaking | continuing | returning   *)
-(*   inp   input still to be handed out, as the chunks a line-per-call     *)
-(*         reader returns (each ends in a newline except possibly the last)*)
+(*   inp   input still to be handed out: what successive read calls of the *)
+(*         stream return; buf: read but not yet consumed (buffered reader) *)
 (*   rd    read calls issued; failAt: the read call that fails (0 = none)  *)
 (*   out   bytes accepted by the writer; budget: bytes it still accepts    *)
 (*         (-1 = unlimited)                                                *)
@@ -145,16 +145,19 @@ WriteLine(out, budget, text) ==
   ELSE IF n <= budget THEN [out |-> out \o all, budget |-> budget - n, ok |-> TRUE]
   ELSE LET t == TakeBytes(all, budget) IN [out |-> out \o t, budget |-> budget - VBytes(t), ok |-> FALSE]
 
-(* `listen`: read calls until a complete line is held.                     *)
-(* Result [ok, line, inp, rd]                                              *)
+(* `listen`: the reader is buffered (BufReader::read_line).  A line is taken from the buffer if it holds a line end;        *)
+(* otherwise the stream is read (one call = one chunk, which may be a piece of a line or several lines) until the buffer   *)
+(* holds a line end or the stream ends.  Result [ok, line, inp, rd, buf]                                                   *)
 EndsNl(s) == s # "" /\ CharAt(s, Len(s)) = "\n"
+FirstNl(s) == LET RECURSIVE F(_) F(i) == IF i > Len(s) THEN 0 ELSE IF CharAt(s, i) = "\n" THEN i ELSE F(i + 1) IN F(1)
 RECURSIVE ReadLine(_, _, _, _)
-ReadLine(inp, rd, failAt, acc) ==
-  IF failAt # 0 /\ rd + 1 >= failAt THEN [ok |-> FALSE, line |-> acc, inp |-> inp, rd |-> rd + 1]
-  ELSE IF inp = <<>> THEN [ok |-> TRUE, line |-> acc, inp |-> inp, rd |-> rd + 1]              \* end of input
-  ELSE LET c == Head(inp) IN
-       IF EndsNl(c) THEN [ok |-> TRUE, line |-> acc \o SubSeq(c, 1, Len(c) - 1), inp |-> Tail(inp), rd |-> rd + 1]
-       ELSE ReadLine(Tail(inp), rd + 1, failAt, acc \o c)
+ReadLine(inp, rd, failAt, buf) ==
+  LET k == FirstNl(buf) IN
+  IF k # 0 THEN [ok |-> TRUE, line |-> SubSeq(buf, 1, k - 1), inp |-> inp, rd |-> rd, buf |-> SubSeq(buf, k + 1, Len(buf))]
+  ELSE IF failAt # 0 /\ rd + 1 >= failAt THEN [ok |-> FALSE, line |-> buf, inp |-> inp, rd |-> rd + 1, buf |-> buf]
+  ELSE IF inp = <<>> \/ Head(inp) = "" THEN                                                    \* end of input
+         [ok |-> TRUE, line |-> buf, inp |-> IF inp = <<>> THEN inp ELSE Tail(inp), rd |-> rd + 1, buf |-> ""]
+  ELSE ReadLine(Tail(inp), rd + 1, failAt, buf \o Head(inp))
 
 -----------------------------------------------------------------------------
 (* frames *)
@@ -177,7 +180,7 @@ ChainRoot(t) == IF t.e = "idx" THEN ChainRoot(t.a) ELSE t
 
 Init0(prog, inp, budget, failAt) ==
   [K |-> <<FProg(prog, 1)>>, V |-> <<>>, env |-> <<<<>>>>, last |-> <<>>,
-   act |-> <<[cf |-> "normal", ret |-> <<>>]>>, inp |-> inp, rd |-> 0, failAt |-> failAt,
+   act |-> <<[cf |-> "normal", ret |-> <<>>]>>, inp |-> inp, buf |-> "", rd |-> 0, failAt |-> failAt,
    out |-> "", budget |-> budget, st |-> "run", evs |-> <<>>, acts |-> {}, steps |-> 0]
 
 Cf(m) == m.act[Len(m.act)].cf
@@ -224,9 +227,9 @@ HasEffects(e) ==       \* contains a call or a roll: evaluation order would be o
 StepStmt(m, rest, s) ==
   CASE s.s = "say" -> [m EXCEPT !.K = <<FEval(s.e), F("sayK")>> \o rest]
     [] s.s = "listen" ->
-         LET r == ReadLine(m.inp, m.rd, m.failAt, "") IN
+         LET r == ReadLine(m.inp, m.rd, m.failAt, m.buf) IN
          IF ~r.ok THEN Fail([m EXCEPT !.rd = r.rd, !.inp = r.inp])
-         ELSE LET m1 == [m EXCEPT !.rd = r.rd, !.inp = r.inp] IN
+         ELSE LET m1 == [m EXCEPT !.rd = r.rd, !.inp = r.inp, !.buf = r.buf] IN
               IF s.dest.e = "none" THEN [m1 EXCEPT !.K = rest]
               ELSE [m1 EXCEPT !.K = <<FWr(s.dest, WSet(Str(r.line)))>> \o rest]
     [] s.s = "assign" ->
